@@ -97,7 +97,7 @@ func cases[T num](in inst[T], specs []spec) []ra.Case {
 	for ai, sa := range specs {
 		for bi, sb := range specs {
 			sa, sb := sa, sb
-			out = append(out, ra.Case{Key: fmt.Sprintf("%s|pair|a=%d|b=%d", in.name, ai, bi), PerG: true, Fn: func(g int) string {
+			out = append(out, ra.Case{Key: fmt.Sprintf("MultiAsset[%s]|pair|a=%d|b=%d", in.name, ai, bi), PerG: true, Fn: func(g int) string {
 				a, b := in.build(sa, g), in.build(sb, g)
 				cmp, cmpR := a.Compare(b), b.Compare(a)
 				if cmp != cmpR || !a.Compare(in.build(sa, g)) {
